@@ -4,7 +4,7 @@ import math
 import pickle
 import re
 
-from common import freephil, enc, call_j, attr_j, word_j, AutoT
+from common import freephil, enc, call_j, attr_j, word_j, AutoT, tokenizer
 from values import pval_j, eval_table
 
 LEVEL = "proof"
@@ -17,7 +17,10 @@ RULE = ("built-in numeric/bool/list types with constructor-argument combinations
         "type, sizes, None/Auto gates) x value texts from a grammar of numbers, expressions, separators, brackets, "
         "None/Auto/True/False in any case, inf/nan, wrong counts, joined in pairs, plus numbers at and next to every declared "
         "bound (floor, ceil, truncation, +-1/2, +-1) in several spellings; the oracle reads the DECLARED arguments from the "
-        "type expression, never from the converter object; non-trivial = value text has a digit or a letter; "
+        "type expression, never from the converter object; a quarter more cases take the parameter from a master parsed with "
+        "the default registry inside a process history (1-3 parses of the same / respelt type expression under site "
+        "registries that re-register a built-in type name, all five names, or only add a name; before or after; result kept "
+        "or dropped), every fixed-list type once at process start; non-trivial = value text has a digit or a letter; "
         "distinct = (type, optional, text)")
 ASSUMPTIONS = ["type expressions are the built-in ones with literal arguments"]
 
@@ -253,10 +256,177 @@ def master_def(t, route="parse"):
     return _defs[(t, route)]
 
 
+# ---- the process around the parameter ----------------------------------------------------------------------------------
+# The statement is about "every typed parameter": a parameter declared with a built-in type in a master that is parsed with
+# the default converter registry.  Nothing in it restricts what ELSE the process has done: programs built on freephil have
+# components with registries of their own (freephil.extended_converter_registry) which add type names and may re-register a
+# built-in name for a site-specific converter.  The declared domain of the parameter is the built-in one whatever was parsed
+# before, with whatever registry, and whether or not those results are still referenced.
+BUILTIN_NAMES = ["int", "float", "bool", "ints", "floats"]
+
+
+class _site_text_converters:
+    """a site-specific converter: accepts any constructor arguments and keeps the text of the value (serial numbers such
+    as 0x1F, version strings) — every value it yields is outside every built-in numeric / bool / list domain"""
+    phil_type = None
+
+    def __init__(self, **kw):
+        self.kw = kw
+
+    def __str__(self):
+        return self.phil_type + ("(" + ", ".join("%s=%r" % a for a in sorted(self.kw.items())) + ")" if self.kw else "")
+
+    def from_words(self, words, master):
+        return " ".join(w.value for w in words)
+
+    def as_words(self, python_object, master):
+        return [tokenizer.word(value=str(python_object), quote_token='"')]
+
+
+def _site(name):
+    cls = "_site_%s_converters" % name
+    if cls not in globals():        # module-level classes: masters of site components can be copied and pickled like others
+        globals()[cls] = type(cls, (_site_text_converters,), {"phil_type": name, "__module__": __name__})
+    return globals()[cls]
+
+
+SITE_REGISTRIES = {"site_" + n: freephil.extended_converter_registry(additional_converters=[_site(n)]) for n in BUILTIN_NAMES}
+SITE_REGISTRIES["site_all"] = freephil.extended_converter_registry(additional_converters=[_site(n) for n in BUILTIN_NAMES])
+SITE_REGISTRIES["site_adds_only"] = freephil.extended_converter_registry(additional_converters=[_site("serial")])
+KEEP_ALIVE = []         # results of earlier parses stay referenced: nothing here may depend on when the collector runs
+
+
+def respell(rng, t):
+    """the type expression as another component may write it: the same text, other blanks, another order of arguments"""
+    k = rng.random()
+    if k < 0.6 or "(" not in t:
+        return t
+    if k < 0.8:
+        return t.replace("(", "( ").replace("=", " = ").replace(")", " )")
+    name, rest = t.split("(", 1)
+    args = rest[:-1].split(", ")
+    rng.shuffle(args)
+    return name + "(" + ", ".join(args) + ")"
+
+
+def gen_history(rng, t):
+    """a sequence of parses in one process: 1-3 by site components (registry, type expression, result kept / dropped) and
+    1-2 ordinary ones with the default registry; the LAST ordinary parse yields the parameter that is judged"""
+    pt = declared(t)[0]
+    ev = []
+    for _ in range(rng.choice([1, 1, 2, 3])):
+        ev.append([rng.choice(["site_" + pt, "site_" + pt, "site_all", "site_adds_only"]), respell(rng, t),
+                   rng.choice(["kept", "kept", "dropped"])])
+    ev.insert(rng.randrange(len(ev) + 1), ["default", t, "kept"])
+    if rng.random() < 0.3:
+        ev.insert(rng.randrange(len(ev) + 1), ["default", t, rng.choice(["kept", "dropped"])])
+    return ev
+
+
+def run_history(history):
+    """executes the parses; the definition of the last default-registry parse, or None where a constructor refuses the
+    combination of arguments (no typed parameter then)"""
+    judged = None
+    for reg, expr, life in history:
+        try:
+            if reg == "default":
+                m = judged = freephil.parse(input_string="v = 1\n  .type = %s\n" % expr)
+            else:
+                m = freephil.parse(input_string="w = 0x1F\n  .type = %s\n" % expr, converter_registry=SITE_REGISTRIES[reg])
+        except RuntimeError:
+            if reg == "default":
+                judged = None
+            continue
+        if life == "kept":
+            KEEP_ALIVE.append(m)
+            if len(KEEP_ALIVE) > 3000:
+                del KEEP_ALIVE[:1500]
+    return None if judged is None else judged.objects[0]
+
+
 def run(ctx):
     rng = ctx.rng
     n = ctx.scale(12000, 200000, 40000)
     cases, reqs, impls = [], [], []
+
+    def flush(force=False):
+        if reqs and (force or len(reqs) >= 5000):
+            if ctx.mode != "impl-only":
+                ctx.corr("from_words", list(cases), list(reqs), list(impls))
+            del cases[:], reqs[:], impls[:]
+
+    def evaluate(t, text, route, base, generated, extra=None, sample=False):
+        """one (typed parameter, value text): outcome on the implementation, oracle, and the request for the model"""
+        pt, decl = declared(t)
+        try:
+            words = freephil.tokenize_value_literal(input_string=text, source_info=None)
+        except BaseException:
+            ctx.count("unparseable_value")
+            return
+        if not words:
+            return
+        d = base.customized_copy(words=words)
+        case = dict({"type": t, "text": text, "route": route}, **(extra or {}))
+        ctx.case((t, text), nontrivial=any(c.isalnum() for c in text))
+        ctx.count(pt)
+        ctx.count("route_" + route)
+        ctx.count("types_generated" if generated else "types_fixed_list")
+        for lit in decl.get("bound_lits", ()):
+            cls = "integral" if _INT_LIT.match(lit) else ("fractional" if float(lit) != int(float(lit)) else "integral_float")
+            ctx.count("bound_%s_on_%s" % (cls, "int_type" if pt in ("int", "ints") else "float_type"))
+        if route != "history" and str(d.type) != str(master_def(t).type):
+            ctx.fail({"type": t, "route": route}, "the %s copy of the master declares %s, the master %s"
+                     % (route, d.type, master_def(t).type))
+        ia = call_j(lambda: d.extract(), pval_j)
+        ctx.count("outcome_" + (ia[0] if ia[0] == "ok" else ia[1] + ":" + str(ia[2])))
+        # oracle: error naming the parameter, or a value in the DECLARED domain
+        if ia[0] == "ok":
+            v = d.extract()
+            f = in_domain(t, v)
+            if f:
+                nan = "nan" in f
+                ctx.fail(case, f, finding="D22" if nan else None, model_violates=None)
+        elif ia[1] == "runtime":
+            try:
+                d.extract()
+            except RuntimeError as e:
+                if "v" not in str(e):
+                    ctx.fail(case, "error does not name the parameter: %s" % e)
+        else:
+            ctx.fail(case, "extraction raised %s" % (ia[1:],))
+        if sample:
+            ctx.sample({"type": t, "text": text, "outcome": ia})
+        if not model_covers(t):
+            # type expression outside the model's grammar: oracle only
+            ctx.count("impl_only_type_outside_model")
+            return
+        cases.append(case)
+        reqs.append(["from_words", enc(t), None, [word_j(w) for w in words], eval_table(words)])
+        impls.append(ia)
+        flush()
+
+    def history_case(t, generated, k=1):
+        """the parameter comes out of a process history (see gen_history); k value texts on the judged definition"""
+        history = gen_history(rng, t)
+        base = run_history(history)
+        regs = [e[0] for e in history]
+        ctx.count("history_site_parse_before_the_judged_one" if regs.index("default") > 0 else "history_default_parse_first")
+        if base is None:
+            ctx.count("history_type_refused")
+            return
+        for e in history:
+            if e[0] != "default":
+                ctx.count("history_%s_%s_%s" % ("adds_a_name" if e[0] == "site_adds_only" else "redefines_builtin_name",
+                                                "same_text" if e[1] == t else "respelt", e[2]))
+        decl = declared(t)[1]
+        for _ in range(k):
+            evaluate(t, value_text(rng, decl if (generated or rng.random() < 0.3) else None), "history", base, generated,
+                     extra={"history": history})
+
+    # process start: the other components of the program may have been initialised before the first ordinary master is
+    # parsed — every type of the fixed list (and thereby of MUST_ACCEPT) enters the process through a history
+    for t in rng.sample(TYPES, len(TYPES)):
+        history_case(t, False, k=4)
     # spellings that must be accepted
     for t, text, want in MUST_ACCEPT:
         d = master_def(t)
@@ -290,57 +460,19 @@ def run(ctx):
         t = rng.choice(pool) if generated else rng.choice(TYPES)
         pt, decl = declared(t)
         text = value_text(rng, decl if (generated or rng.random() < 0.3) else None)
-        try:
-            words = freephil.tokenize_value_literal(input_string=text, source_info=None)
-        except BaseException:
-            ctx.count("unparseable_value")
-            continue
-        if not words:
-            continue
         route = rng.choice(ROUTES)
-        d = master_def(t, route).customized_copy(words=words)
-        ctx.case((t, text), nontrivial=any(c.isalnum() for c in text))
-        ctx.count(pt)
-        ctx.count("route_" + route)
-        ctx.count("types_generated" if generated else "types_fixed_list")
-        for lit in decl.get("bound_lits", ()):
-            cls = "integral" if _INT_LIT.match(lit) else ("fractional" if float(lit) != int(float(lit)) else "integral_float")
-            ctx.count("bound_%s_on_%s" % (cls, "int_type" if pt in ("int", "ints") else "float_type"))
-        if str(d.type) != str(master_def(t).type):
-            ctx.fail({"type": t, "route": route}, "the %s copy of the master declares %s, the master %s"
-                     % (route, d.type, master_def(t).type))
-        ia = call_j(lambda: d.extract(), pval_j)
-        ctx.count("outcome_" + (ia[0] if ia[0] == "ok" else ia[1] + ":" + str(ia[2])))
-        # oracle: error naming the parameter, or a value in the DECLARED domain
-        if ia[0] == "ok":
-            v = d.extract()
-            f = in_domain(t, v)
-            if f:
-                nan = "nan" in f
-                ctx.fail({"type": t, "text": text, "route": route}, f, finding="D22" if nan else None, model_violates=None)
-        elif ia[1] == "runtime":
-            try:
-                d.extract()
-            except RuntimeError as e:
-                if "v" not in str(e):
-                    ctx.fail({"type": t, "text": text}, "error does not name the parameter: %s" % e)
-        else:
-            ctx.fail({"type": t, "text": text}, "extraction raised %s" % (ia[1:],))
-        if i % 1500 == 0:
-            ctx.sample({"type": t, "text": text, "outcome": ia})
-        if not model_covers(t):
-            # type expression outside the model's grammar: oracle only
-            ctx.count("impl_only_type_outside_model")
-            continue
-        cases.append({"type": t, "text": text, "route": route})
-        reqs.append(["from_words", enc(t), None, [word_j(w) for w in words], eval_table(words)])
-        impls.append(ia)
-        if len(reqs) >= 5000:
-            if ctx.mode != "impl-only":
-                ctx.corr("from_words", cases, reqs, impls)
-            cases, reqs, impls = [], [], []
-    if reqs and ctx.mode != "impl-only":
-        ctx.corr("from_words", cases, reqs, impls)
+        evaluate(t, text, route, master_def(t, route), generated, sample=(i % 1500 == 0))
+        if i % 4 == 3:
+            # one more case whose parameter comes out of a process history; mostly a type expression the process has
+            # not met yet, else one it already holds ordinary masters of
+            k = rng.random()
+            if k < 0.7:
+                history_case(gen_type(rng), True)
+            elif k < 0.85 and pool:
+                history_case(rng.choice(pool), True)
+            else:
+                history_case(rng.choice(TYPES), False)
+    flush(force=True)
 
 
 def finding_still_fails(f):
@@ -356,7 +488,13 @@ def finding_still_fails(f):
 
 def replay(payload):
     c = payload["failure"]["case"]
-    d = master_def(c["type"], c.get("route", "parse"))
+    if c.get("route") == "history":     # a fresh process: the recorded parses are run again, in order
+        d = run_history(c["history"])
+        if d is None:
+            print(c, "-> the constructor refuses the type")
+            return True
+    else:
+        d = master_def(c["type"], c.get("route", "parse"))
     words = freephil.tokenize_value_literal(input_string=c["text"], source_info=None)
     r = call_j(lambda: d.customized_copy(words=words).extract(), pval_j)
     print(c, "->", r)
